@@ -47,10 +47,44 @@ def run(ctx: Ctx):
     ctx.attempt(available_props, ctx)
     ctx.attempt(phases, ctx)
     ctx.attempt(driver_updates_total, ctx)
+    ctx.attempt(driver_step_adopts, ctx)
     ctx.attempt(dispatcher_avail, ctx)
     ctx.floor("CMP.time-in-range", 1)
     ctx.floor("CMP.shift-flip", 2)
     ctx.not_decided += ["time-zone / utcfromtimestamp semantics", "multi-day numeric runs"]
+
+
+def driver_step_adopts(ctx: Ctx):
+    """The per-vehicle step of the driver phase hands on the state the driver's update produced whenever it produced one (no error,
+    a state): a flipped test there discards every shift change while each update function, looked at alone, is right."""
+    repo = ctx.repo
+    fn = repo.func_opt(SSO, "perform_driver_state_updates._step_drivers")
+    if fn is None:
+        from .. import rules as _r
+        outer = repo.func(SSO, "perform_driver_state_updates")
+        folds = _r.recognise_folds(outer)
+        ctx.require(bool(folds), "perform_driver_state_updates: the fold over the vehicles was not found")
+        fn = _r.resolve_callable(repo, outer, folds[0][0])
+        ctx.require(fn is not None, "perform_driver_state_updates: reducer cannot be resolved")
+    acc, veh = fn.params[:2]
+    upd = f"{veh}.driver_state.update({acc}, env)"
+    n = 0
+    for p in flow.paths(fn.node):
+        if p.kind != "return":
+            continue
+        facts = {(flow.dump(a), pol) for a, pol in p.facts()}
+        err_ruled_out = (f"{upd}[0]", False) in facts or (f"$isnone({upd}[0])", True) in facts
+        state_present = (f"{upd}[1]", True) in facts or (f"$isnone({upd}[1])", False) in facts
+        if err_ruled_out and state_present:
+            n += 1
+            ctx.check(flow.dump(p.value) == f"{upd}[1]", "D3", "DU.driver-commit", "the driver phase hands on the state a driver's update produced", fn, p.end,
+                      why_bad=f"with no error and a state at hand the step returns `{flow.dump(p.value)[:80]}`: the driver's update (availability flip, shift event's state) is thrown away",
+                      construct="_step_drivers:adopt")
+    # the complementary paths must not claim the update's state either way; at least one adopting path has to exist
+    ctx.require(n >= 1 or any(flow.dump(p.value) == f"{upd}[1]" for p in flow.paths(fn.node) if p.kind == "return"), "perform_driver_state_updates: no path adopts the driver update's state")
+    if n == 0:
+        ctx.violation("D3", "DU.driver-commit", "the driver phase hands on the state a driver's update produced", fn,
+                      why="no path on which the update returned a state without error hands that state on", construct="_step_drivers:adopt-missing")
 
 
 def in_range(ctx: Ctx):
